@@ -18,6 +18,8 @@ mod parse_style;
 mod parse_styles;
 mod style;
 mod utils;
+#[cfg(dandavison_delta_verif)]
+mod verif;
 mod wrapping;
 
 mod subcommands;
